@@ -1,4 +1,25 @@
 ------------------------------ MODULE Verifier2 -----------------------------
+(* X10 - spec/Verifier.tla (the model C05 uses; its text follows unchanged) PLUS the corrections found by differential
+   testing against the kernel's verifier on single-edit mutants of generator output (checks/x10.py,
+   harness/vmutate.py).  Requirement: the model accepts  =>  the kernel (6.18, root) accepts.  Every correction is
+   marked `\* X10:` and names the kernel rule it is taken from (kernel/bpf/verifier.c); none of them rejects a
+   program of the unmutated corpus.  Summary of the corrections:
+     X10-a  static control flow (check_cfg, check_subprogs): every instruction reachable, the last instruction an
+            exit or a ja, no backward jump
+     X10-b  the proven packet range belongs to the packet pointers that existed when the comparison was made
+            (find_good_pkt_pointers), not to the path; a comparison of pkt + o with o < 0, o > 65535, or o = 0 in the
+            open form proves nothing
+     X10-c  pointer +- REGISTER is not modelled (no scalar ranges here): rejected instead of accepted with an unknown
+            offset; pointer +- constant with |constant| or |result| >= 2^29 rejected (check_reg_sane_offset);
+            subtraction from the frame pointer rejected
+     X10-d  LD_IMM64: pseudo sources other than 0 / 1 not modelled; source 1 needs an existing map and a zero
+            upper half
+     X10-e  context: field 20 (egress_ifindex) is not readable by an XDP program attached to a device; field 8
+            (data_meta) is a pointer, not a scalar
+     X10-f  byte swap: the 64-bit class has only the unconditional form (source bit clear); NEG has no register form
+     X10-g  atomic operations: only STX | ATOMIC with operation field 0 (add) is modelled; ST has only mode MEM;
+            LDX only mode MEM
+   The original header follows.                                                                                  *)
 (* C05 - the acceptance rules of the Linux eBPF verifier that the generator relies on, as a
    type-state machine explored by TLC over ALL paths of a program (ebpfcat emits forward jumps only,
    so every program has finitely many paths).
@@ -34,7 +55,8 @@ Cases == JsonDeserialize(IOEnv.TRACE_FILE)
 UNK == -2000000000        \* an offset not known statically (TLC cannot compare an integer with a string)
 VU == [t |-> "u"]
 VS == [t |-> "s"]
-IsPtr(v) == v.t \in {"ctx", "stk", "pkt", "end", "mv"}
+IsPtr(v) == v.t \in {"ctx", "stk", "pkt", "end", "mv", "meta"}      \* X10-e: "meta" = xdp_md.data_meta
+MAXVAR == 536870912                                                  \* X10-c: BPF_MAX_VAR_OFF = 1 << 29
 Known(o) == o # UNK
 AddOff(o, d) == IF Known(o) /\ Known(d) THEN o + d ELSE UNK
 ImmInt(i) == WToS32(WSext(i.imm, 8))
@@ -46,11 +68,36 @@ VProg == Cases[cid].programs[Cases[cid].entry]
 VMaps == Cases[cid].maps
 VIns == VProg[vpc + 1]
 
+(* X10-a: the control-flow rules the kernel checks before it walks the paths (check_cfg: "unreachable insn",
+   check_subprogs: "last insn is not an exit or jmp").  The walk below visits every instruction the control-flow
+   graph reaches - both outcomes of every conditional jump - exactly as check_cfg does.                           *)
+Succs(prog, pc) ==
+    LET i == prog[pc + 1] IN
+    IF i.op = 24 THEN {pc + 2}
+    ELSE IF i.op = 149 THEN {}
+    ELSE IF Cls(i.op) \in {5, 6} /\ AluCode(i.op) \notin {8, 9}
+         THEN (IF AluCode(i.op) = 0 THEN {pc + 1 + i.off} ELSE {pc + 1, pc + 1 + i.off})
+    ELSE {pc + 1}
+RECURSIVE Reach(_, _, _)
+Reach(prog, seen, frontier) ==
+    IF frontier = {} THEN seen
+    ELSE Reach(prog, seen \cup frontier,
+               {q \in UNION {Succs(prog, pc) : pc \in frontier} : q >= 0 /\ q < Len(prog)} \ (seen \cup frontier))
+Covered(prog, reach) == reach \cup {pc + 1 : pc \in {q \in reach : prog[q + 1].op = 24}}
+MinOf(set) == CHOOSE x \in set : \A y \in set : x <= y
+StaticVerdictOf(prog, reach) ==
+    IF prog[Len(prog)].op \notin {149, 5} THEN <<"reject", "last-instruction-not-exit-or-jump", Len(prog) - 1>>
+    ELSE IF (0 .. (Len(prog) - 1)) \ reach # {}
+         THEN <<"reject", "unreachable-instruction", MinOf((0 .. (Len(prog) - 1)) \ reach)>>
+    ELSE <<"run">>
+StaticVerdict(prog) == StaticVerdictOf(prog, Covered(prog, Reach(prog, {}, {0})))
+
 VInit == /\ cid \in 1 .. Len(Cases)
          /\ vpc = 0
          /\ vreg = [r \in 0 .. 10 |-> IF r = 1 THEN [t |-> "ctx"]
                                      ELSE IF r = 10 THEN [t |-> "stk", o |-> 0] ELSE VU]
-         /\ vinit = {} /\ vrange = 0 /\ vnext = 1 /\ vverdict = <<"run">>
+         /\ vinit = {} /\ vrange = 0 /\ vnext = 1
+         /\ vverdict = StaticVerdict(Cases[cid].programs[Cases[cid].entry])          \* X10-a
 
 Reject(why) == /\ vverdict' = <<"reject", why, vpc>>
                /\ UNCHANGED <<cid, vpc, vreg, vinit, vrange, vnext>>
@@ -72,8 +119,11 @@ VAlu(i) ==
     ELSE IF code = 13 THEN
         (IF d.t # "s" THEN Reject("byte-swap-of-non-scalar")
          ELSE IF ImmInt(i) \notin {16, 32, 64} THEN Reject("byte-swap-width")
+         \* X10-f: BPF_ALU64 | BPF_END exists only as the unconditional swap (BPF_TO_LE bit); "BPF_END uses reserved fields"
+         ELSE IF is64 /\ SrcIsReg(i.op) THEN Reject("byte-swap-64-bit-class-with-direction")
          ELSE Nxt(vreg))
     ELSE IF code > 12 THEN Reject("bad-alu-code")
+    ELSE IF code = 8 /\ SrcIsReg(i.op) THEN Reject("bad-alu-code")          \* X10-f: "BPF_NEG uses reserved fields"
     ELSE IF usesrc /\ s.t = "u" THEN Reject("read-of-unwritten-register")
     ELSE IF code = 11 THEN                                          \* MOV
         (IF is64 THEN Nxt(SetR(i.dst, s))
@@ -86,11 +136,21 @@ VAlu(i) ==
     ELSE IF ~is64 THEN Reject("32-bit-arithmetic-on-pointer")
     ELSE IF d.t \in {"stk", "pkt", "mv"} /\ s.t = "s" /\ code \in {0, 1} THEN        \* pointer +- scalar
         (IF d.t = "mv" /\ d.nul THEN Reject("arithmetic-on-possibly-null-pointer")
-         ELSE LET delta == IF SrcIsReg(i.op) THEN UNK ELSE (IF code = 0 THEN ImmInt(i) ELSE 0 - ImmInt(i)) IN
-              Nxt(SetR(i.dst, [d EXCEPT !.o = AddOff(d.o, delta)])))
+         \* X10-c: the kernel needs a BOUNDED register here ("math between .. pointer and register with unbounded min
+         \* value", "unbounded memory access"); this model has no scalar ranges, and the generator adds constants only
+         ELSE IF SrcIsReg(i.op) THEN Reject("pointer-plus-register-not-modelled")
+         \* X10-c: "R%d subtraction from stack pointer prohibited"
+         ELSE IF d.t = "stk" /\ code = 1 THEN Reject("subtraction-from-stack-pointer")
+         \* X10-c: check_reg_sane_offset: "math between %s pointer and %lld is not allowed"
+         ELSE IF ImmInt(i) >= MAXVAR \/ ImmInt(i) <= 0 - MAXVAR THEN Reject("pointer-offset-constant-too-large")
+         ELSE LET delta == IF code = 0 THEN ImmInt(i) ELSE 0 - ImmInt(i) IN
+              \* X10-c: check_reg_sane_offset on the result: "%s pointer offset %d is not allowed"
+              IF ~Known(d.o) \/ d.o + delta >= MAXVAR \/ d.o + delta <= 0 - MAXVAR
+              THEN Reject("pointer-offset-too-large")
+              ELSE Nxt(SetR(i.dst, [d EXCEPT !.o = d.o + delta])))
     ELSE IF d.t = "s" /\ s.t \in {"stk", "pkt", "mv"} /\ code = 0 THEN               \* scalar + pointer
         (IF s.t = "mv" /\ s.nul THEN Reject("arithmetic-on-possibly-null-pointer")
-         ELSE Nxt(SetR(i.dst, [s EXCEPT !.o = UNK])))
+         ELSE Reject("pointer-plus-register-not-modelled"))                             \* X10-c (as above)
     ELSE Reject("forbidden-pointer-arithmetic")
 
 (* ---- memory access ------------------------------------------------------------------------------ *)
@@ -104,7 +164,7 @@ Access(p, off, n, write) ==
          ELSE "")
     ELSE IF p.t = "pkt" THEN
         (IF ~Known(p.o) THEN "variable-packet-offset"
-         ELSE IF p.o + off < 0 \/ p.o + off + n > vrange THEN "packet-access-outside-proven-range"
+         ELSE IF p.o + off < 0 \/ p.o + off + n > p.r THEN "packet-access-outside-proven-range"     \* X10-b: p.r, not vrange
          ELSE "")
     ELSE IF p.t = "mv" THEN
         (IF p.nul THEN "dereference-of-possibly-null-map-value"
@@ -112,7 +172,8 @@ Access(p, off, n, write) ==
          ELSE "")
     ELSE IF p.t = "ctx" THEN
         (IF write THEN "store-to-context"
-         ELSE IF n # 4 \/ off \notin {0, 4, 8, 12, 16, 20} THEN "bad-context-access" ELSE "")
+         \* X10-e: egress_ifindex (20) is readable only with expected_attach_type BPF_XDP_DEVMAP
+         ELSE IF n # 4 \/ off \notin {0, 4, 8, 12, 16} THEN "bad-context-access" ELSE "")
     ELSE IF p.t = "u" THEN "read-of-unwritten-register"
     ELSE "dereference-of-non-pointer"
 
@@ -120,11 +181,20 @@ VLoad(i) ==
     IF i.dst = 10 THEN Reject("write-to-frame-pointer")
     ELSE IF Cls(i.op) = 0 THEN
         (IF i.op # 24 \/ vpc + 2 > Len(VProg) THEN Reject("bad-ld-imm64")
+         \* X10-d: BPF_PSEUDO_MAP_VALUE (2) gives a map value pointer, 3 .. 6 other objects, above "unrecognized
+         \* bpf_ld_imm64 insn"; only a plain constant and a map handle are modelled
+         ELSE IF i.src \notin {0, 1} THEN Reject("ld-imm64-pseudo-source-not-modelled")
+         \* X10-d: "fd %d is not pointing to valid bpf_map"; the upper half must be zero for a map handle
+         ELSE IF i.src = 1 /\ (ImmInt(i) < 1 \/ ImmInt(i) > Len(VMaps)) THEN Reject("ld-imm64-no-such-map")
+         ELSE IF i.src = 1 /\ ImmInt(VProg[vpc + 2]) # 0 THEN Reject("ld-imm64-map-with-upper-half")
          ELSE Goto(vpc + 2, SetR(i.dst, IF i.src = 1 THEN [t |-> "map", fd |-> ImmInt(i)] ELSE VS), vinit, vrange, vnext))
+    ELSE IF Mode(i.op) # 3 THEN Reject("bad-load-mode")                                \* X10-g: BPF_MEM only
     ELSE LET p == vreg[i.src]  n == SzBytes(i.op)  why == Access(p, i.off, n, FALSE) IN
          IF why # "" THEN Reject(why)
-         ELSE IF p.t = "ctx" /\ i.off = 0 THEN Nxt(SetR(i.dst, [t |-> "pkt", o |-> 0]))
+         \* X10-b: a packet pointer read from the context starts with NO proven range, whatever was proven before
+         ELSE IF p.t = "ctx" /\ i.off = 0 THEN Nxt(SetR(i.dst, [t |-> "pkt", o |-> 0, r |-> 0]))
          ELSE IF p.t = "ctx" /\ i.off = 4 THEN Nxt(SetR(i.dst, [t |-> "end"]))
+         ELSE IF p.t = "ctx" /\ i.off = 8 THEN Nxt(SetR(i.dst, [t |-> "meta"]))       \* X10-e: PTR_TO_PACKET_META
          ELSE Nxt(SetR(i.dst, VS))
 
 VStore(i) ==
@@ -136,6 +206,10 @@ VStore(i) ==
     ELSE IF why # "" THEN Reject(why)
     ELSE IF v.t # "s" THEN Reject("store-of-pointer")
     ELSE IF atomic /\ (p.t = "pkt" \/ n \notin {4, 8}) THEN Reject("atomic-on-packet-or-bad-size")
+    \* X10-g: "BPF_ST uses reserved fields" (ST has only BPF_MEM); of the atomic operations only add (field 0) is
+    \* modelled: the fetching ones write a register, other values are "BPF_ATOMIC uses invalid atomic opcode"
+    ELSE IF Cls(i.op) = 2 /\ Mode(i.op) # 3 THEN Reject("bad-store-mode")
+    ELSE IF atomic /\ ImmInt(i) # 0 THEN Reject("atomic-operation-not-modelled")
     ELSE IF atomic /\ p.t = "stk" /\ ~({p.o + i.off + k : k \in 0 .. (n - 1)} \subseteq vinit)
          THEN Reject("read-of-uninitialised-stack")
     ELSE IF Mode(i.op) \notin {3, 6} THEN Reject("bad-store-mode")
@@ -153,7 +227,13 @@ Proves(code, a, b, truth) ==
         rel == IF endLeft THEN code ELSE CASE code = 2 -> 10 [] code = 3 -> 11 [] code = 10 -> 2 [] code = 11 -> 3 [] OTHER -> 0
         eff == IF truth THEN rel ELSE CASE rel = 2 -> 11 [] rel = 3 -> 10 [] rel = 10 -> 3 [] rel = 11 -> 2 [] OTHER -> 0 IN
     IF ~(endLeft \/ endRight) THEN 0
+    \* X10-b: find_good_pkt_pointers: "if (dst_reg->off < 0 || (dst_reg->off == 0 && range_right_open)) return"
+    \* and nothing beyond MAX_PACKET_OFF
+    ELSE IF o < 0 \/ o > 65535 \/ (o = 0 /\ eff = 2) THEN 0
     ELSE IF eff = 2 THEN o + 1 ELSE IF eff = 3 THEN o ELSE 0
+(* X10-b: the range just proven is given to every packet pointer that exists now (they all share the packet's base:
+   offsets are constants here), not to pointers loaded from the context later                                      *)
+PktProved(regs, n) == [r \in 0 .. 10 |-> IF regs[r].t = "pkt" /\ regs[r].r < n THEN [regs[r] EXCEPT !.r = n] ELSE regs[r]]
 MaxN(a, b) == IF a > b THEN a ELSE b
 (* registers after learning that the lookup result `id` is / is not NULL *)
 NullKnown(id, isnull) ==
@@ -168,13 +248,17 @@ VJmpOutcome(i, taken) ==
         \* JEQ (1): taken means == 0 ; JNE (5): taken means # 0
         isnull == (code = 1) = taken
         regs == IF nullcheck THEN NullKnown(d.id, isnull) ELSE vreg
-        range == MaxN(vrange, Proves(code, d, s, taken)) IN
-    Goto(target, regs, vinit, range, vnext)
+        proved == IF Cls(i.op) = 5 /\ SrcIsReg(i.op) THEN Proves(code, d, s, taken) ELSE 0 IN
+    \* X10-a: the generator emits forward jumps only; the kernel accepts some loops, this model none
+    IF target <= vpc THEN Reject("backward-jump")
+    ELSE Goto(target, PktProved(regs, proved), vinit, vrange, vnext)                   \* X10-b
 VJmp(i) ==
     LET code == AluCode(i.op)  is32 == Cls(i.op) = 6
         d == vreg[i.dst]
         s == IF SrcIsReg(i.op) THEN vreg[i.src] ELSE VS IN
-    IF code = 0 THEN (IF is32 THEN Reject("bad-jmp32") ELSE Goto(vpc + 1 + i.off, vreg, vinit, vrange, vnext))
+    IF code = 0 THEN (IF is32 THEN Reject("bad-jmp32")
+                      ELSE IF i.off < 0 THEN Reject("backward-jump")                  \* X10-a
+                      ELSE Goto(vpc + 1 + i.off, vreg, vinit, vrange, vnext))
     ELSE IF code \notin {1, 2, 3, 4, 5, 6, 7, 10, 11, 12, 13} THEN Reject("bad-jump-code")
     ELSE IF d.t = "u" \/ s.t = "u" THEN Reject("read-of-unwritten-register")
     ELSE IF d.t = "map" \/ s.t = "map" THEN Reject("comparison-of-map-handle")
